@@ -2,6 +2,7 @@ import Driver.Proto
 import Ibx.Model.FsSteps
 import Ibx.Model.FsCodec
 import Ibx.Model.FsFault
+import Ibx.Model.ConcFileOps
 /-
   mode "crash": the step-program model of the file store (Ibx/Model/FsSteps.lean) with the concrete codec.
 
@@ -17,6 +18,11 @@ import Ibx.Model.FsFault
                                                to the verif step hook) REFUSED, following the code's error paths (Ibx/Model/FsFault.lean);
                                                the state becomes what the failed operation leaves (dry=1: the state is kept) ->
                                                `res=<ok|err|notExist> events=<id,…|_> trace=<hook,…|_> dir=<0|1> orphans=<raw:id,…,tmp|_> <views>`
+    serial <op> | serial get <box> <id> | serial list <box>
+                                               one operation of the one-mailbox interleaving model (Ibx/Model/ConcFileOps.lean) run ALONE, from start
+                                               to end (`seqStep`, the sequential meaning the serialisability theorem of Props/C16File.lean refers to);
+                                               the harness feeds the operations of a concurrent run in the order they got the mailbox lock ->
+                                               `res=<ok|notExist|err|id:<n>|ent:<id>|ents:<id,…|_>> events=<id,…|_> <views>`
   <op> ::= add <box> <id> <src> from= to= subj= date= | seen <box> <id> | rm <box> <id> | purge <box>
   A view line: `<hexbox>=[id/seen/size/from/to,to/subj/date/content|...]` per declared mailbox (content `!` = no raw), `ERR` = unreadable.
 -/
@@ -139,9 +145,38 @@ def faultAnswer (s : St) (op : Op) (ks : List Nat) : St × String :=
    s!"res={o.res.name} events={csv (o.events.map toString)} trace={csv (o.trace.map (·.name))} dir={if d.isSome then 1 else 0} orphans={csv orph} " ++
    views s o.fs)
 
+/-- the `serial` command -/
+def serialAnswer (s : St) (b : Bytes) (op : Ibx.Model.ConcFileOps.COp) : St × String :=
+  let c : Ibx.Model.ConcFileOps.Cfg :=
+    { C := C, ch := Chooser.whole, par := parentSteps (layout s) s.fs b, b := b, cap := s.cap, scope := .wholeOp }
+  let d := s.fs.dirs b
+  let L := Ibx.Model.ConcFileOps.loadW c d op
+  let q := Ibx.Model.ConcFileOps.seqStep c (d, []) op
+  let fs := setDir s.fs b q.1
+  let res := match L.res with
+    | .ok => "ok" | .notExist => "notExist" | .err => "err"
+    | .id i => s!"id:{i}" | .ent e => s!"ent:{e.id}" | .ents l => "ents:" ++ csv (l.map (fun (e : FEnt) => toString e.id))
+  ({ s with fs := fs }, s!"res={res} events={csv (q.2.map toString)} " ++ views s fs)
+
+def parseCOp (ps : List String) (kv : KV) : Option (Bytes × Ibx.Model.ConcFileOps.COp) :=
+  match ps with
+  | ["get", b, i] => do pure (← Bytes.ofHex b, .get (← i.toNat?))
+  | ["list", b] => do pure (← Bytes.ofHex b, .list)
+  | _ =>
+    match parseOp ps kv with
+    | some (.add b i m src) => some (b, .add i m src)
+    | some (.seen b i) => some (b, .seen i)
+    | some (.remove b i) => some (b, .remove i)
+    | some (.purge b) => some (b, .purge)
+    | none => none
+
 def step (s : St) (toks : List String) : St × String :=
   let (ps, kv) := splitKV toks
   match ps with
+  | "serial" :: rest =>
+    match parseCOp rest kv with
+    | some (b, op) => serialAnswer s b op
+    | none => (s, "bad-op")
   | ["cfg"] =>
     match (kv.get? "cap") >>= String.toNat?, kv.get? "variant" with
     | some c, some "safe" => ({ init with cap := c, variant := Variant.safe }, "ok")
